@@ -80,6 +80,8 @@ struct tdesc
     int stack;             // 0 default 1 small 2 medium 3 large
     int spin;
     int boost;             // number of back-off yields (yield_k, k >= 16: "pending_boost" yields)
+    bool late_spawn;       // children are created one at a time at the END of the body, with gaps: the parent
+                           // is then often the only task alive while a child comes and goes
 };
 
 struct program
@@ -113,7 +115,8 @@ static void run_task(program* P, int id)
     tdesc const& d = P->t[id];
     ev("enter").i("t", id).i("w", (long long) pika::get_worker_thread_num()).done();
     for (int s = 0; s < d.spin * 100; ++s) asm volatile("" ::: "memory");
-    for (int c : d.children) submit(P, c, id, 0);
+    if (!d.late_spawn)
+        for (int c : d.children) submit(P, c, id, 0);
     for (int y = 0; y < d.yields; ++y)
     {
         ev("pe").i("t", id).done();
@@ -138,6 +141,12 @@ static void run_task(program* P, int id)
             ev("pb").i("t", id).i("w", (long long) pika::get_worker_thread_num()).done();
         }
     }
+    if (d.late_spawn)
+        for (int c : d.children)
+        {
+            submit(P, c, id, 0);
+            for (int s = 0; s < 4000 + d.spin * 3000; ++s) asm volatile("" ::: "memory");
+        }
     ev("exit").i("t", id).done();
     if (d.parent > 0 && P->t[d.parent].wait_children) P->sem[d.parent]->release();
     ++P->done;
@@ -161,6 +170,11 @@ static std::unique_ptr<program> make_program(vlog::rng& R, int ntasks)
         d.spin = (int) R.below(3);
         d.boost = R.chance(1, 4) ? 1 + (int) R.below(40) : 0;
         if (d.parent > 0) P->t[d.parent].children.push_back(i);
+    }
+    for (int i = 1; i <= ntasks; ++i)
+    {
+        P->t[i].late_spawn = !P->t[i].children.empty() && R.chance(1, 3);
+        if (P->t[i].late_spawn) P->t[i].wait_children = false;
     }
     for (int i = 1; i <= ntasks; ++i)
         if (P->t[i].wait_children) P->sem[i] = std::make_unique<pika::counting_semaphore<>>(0);
